@@ -20,7 +20,7 @@ from mirsym.models_typst import Node, Ast
 from mirsym.session import hexs, unhexs
 from . import pp
 from .common import *
-from .conserve import parse_sexp, strip_layout, size_of, source_of
+from .conserve import parse_sexp, strip_layout, size_of, source_of, leaf_list
 from .lists import atoms_modes, show_atoms
 from .adjacency import leaves, significant
 
@@ -32,6 +32,9 @@ DOCS = [
     '$mat(a \\ , b; c)$\n', '$mat(a, b \\ ; c)$\n', '$mat(a; b \\ )$\n', '#f[+ a \\ ]\n', '#[a \\ ][b]\n', '#strong[a \\ ]\n', '$f(x)(a \\ )$\n', '#table([a \\ ])\n',
     '$a_(b \\ )$\n', '$sqrt(a \\ )$\n', '$[a \\ ]$\n', '$(a \\ )/b$\n', '#f(a)[b \\ ]\n', '$f(#x \\ )$\n', '#f[/ t \\ : d]\n', '/ t: d \\ \n', '#[*a \\ *]\n', '#[= a \\ ]\n',
     '$lr((a \\ ))$\n', '$a \\ /* c */$\n', '$mat(a \\ /* c */)$\n', '$f(a \\ ,)$\n', '$f(..a \\ )$\n', '$f(k: a \\ )$\n', '$f(k: a \\ , b)$\n', '$mat(a \\ ,; b)$\n',
+    # a block comment directly behind a token that ends in `*` or `/`
+    '$a_* /* c */^2$\n', '$x^* /* c */_2$\n', '$a_(*) /* c */^2$\n', '$a / /* c */ b$\n', '#(a / /* c */ b)\n', '$* /* c */ x$\n', '$a_* /* c */$\n', '$a^/ /* c */$\n', '#(a * /* c */ b)\n',
+    '$f(* /* c */)$\n', '$a_*/**/^2$\n' if False else '$a/ /* c */b$\n', '*a* /* c */ b\n', '#f(a)/* c */\n',
     # line comments before closing delimiters
     '#f(a // c\n)\n', '#(a, // c\n)\n', '$f(a // c\n)$\n', '#[a // c\n]\n', '$a // c\n$\n', '#{a // c\n}\n', '#let f(a // c\n) = 1\n', '#import "a": (b // c\n)\n',
     '#f(a)[b // c\n]\n', '#a.b // c\n.c\n', '#(a // c\n+ b)\n',
@@ -217,6 +220,8 @@ def explore(S, docs=None, want=('C01', 'C04', 'C05')):
         adj = code_adjacency(tree) if 'C01' in want else []
         msemis = markup_semicolons(tree) if 'C01' in want else 0
         embedded = src in EMBED_DOCS
+        _lv = [t_ for k_, t_ in leaf_list(tree) if t_ != '']
+        src_adj = {(a_[-1], b_[0]) for a_, b_ in zip(_lv, _lv[1:])}
         from .conserve import leaf_list as _ll
         markers = {t_ for k_, t_ in _ll(tree) if k_ in ('ListMarker', 'EnumMarker', 'TermMarker')} if 'C01' in want and not src.startswith('$') else set()
 
@@ -354,6 +359,21 @@ def explore(S, docs=None, want=('C01', 'C04', 'C05')):
                                       lambda mdl, mode=mode, at=at, w1=w1, w2=w2: dict(describe(mdl), layout=mode, words=[w1, w2], atoms=show_atoms(at)[:300]))
                         ctx.witness('prose word pair')
                 if 'C04' in want:
+                    # two tokens printed without anything between them must not form a comment delimiter that neither holds: `*` + `/* c */`
+                    # reads `*/`, `/` + `/* c */` reads `//`, `/` + `*` reads `/*` (stated lexer fact; pairs already adjacent in the source are exempt)
+                    fuse_bad = None
+                    prev = None
+                    for a in at:
+                        if a[0] == 't' and a[1].is_concrete():
+                            t_ = a[1].concrete()
+                            if t_ == '':
+                                continue
+                            if prev and ((prev[-1] == '*' and t_[0] == '/') or (prev[-1] == '/' and t_[0] in '/*')) and (prev[-1], t_[0]) not in src_adj:
+                                fuse_bad = prev[-8:] + t_[:8]
+                            prev = t_
+                        else:
+                            prev = None
+                    ctx.must_hold(fuse_bad is None, 'C04:tokens-fuse-into-a-comment-delimiter', lambda mdl, mode=mode, at=at, fb=fuse_bad: dict(describe(mdl), layout=mode, fused=fb, atoms=show_atoms(at)[:300]))
                     ctx.must_hold(not lb_bad, 'C04:linebreak-backslash-fused-with-following-token', info)
                     ctx.must_hold(not lc_bad, 'C04:document-line-comment-not-followed-by-line-break', info)
         ob, ex = S.explore('deep[%s]' % show(src)[:40], 'the whole document %s through AttrStore::new + convert_markup with every converter real: tokens conserved, '
